@@ -103,6 +103,8 @@ KindOf(m, n) ==     \* "input" | "output" | "outreg" | "inout" | "wire" | "reg" 
     THEN m.decls[CHOOSE k \in 1..Len(m.decls) : m.decls[k].n = n].kind
     ELSE IF n \in SeqRange(ParamNames(m)) THEN "param" ELSE "none"
 
+IsArray(m, n) == \E k \in 1..Len(m.decls) : m.decls[k].n = n /\ m.decls[k].arr # <<>>
+
 WidthOf(m, n) ==
     IF \E k \in 1..Len(m.ports) : m.ports[k].n = n
     THEN LET p == m.ports[CHOOSE k \in 1..Len(m.ports) : m.ports[k].n = n] IN p.h - p.l + 1
@@ -165,8 +167,10 @@ ModuleFindings(F, m) ==
               n \in {n \in Declared(m) : KindOf(m, n) \in {"wire", "output", "input", "inout"} /\ AlwaysWriters(m, n) # {}}}
     \cup {<<"continuous-assignment-to-variable", m.name, n>> :
               n \in {n \in Declared(m) : KindOf(m, n) \in {"reg", "integer", "outreg"} /\ (AssignDrivers(m, n) # {} \/ InstDrivers(F, m, n) # {})}}
+    \* (a memory array may be written from one always block per port: different processes write different words)
     \cup {<<"variable-written-by-two-always", m.name, n>> :
-              n \in {n \in Declared(m) : KindOf(m, n) \in {"reg", "integer", "outreg"} /\ Cardinality(AlwaysWriters(m, n)) > 1}}
+              n \in {n \in Declared(m) : KindOf(m, n) \in {"reg", "integer", "outreg"} /\ ~IsArray(m, n)
+                                          /\ Cardinality(AlwaysWriters(m, n)) > 1}}
 
 \* interface of a definition as [n, dir, w] records, clock excluded (the implicit clock port is added by the emitter)
 DefIface(d) == [k \in 1..Len(d.ports) |-> [n |-> d.ports[k].n, dir |-> d.ports[k].dir, w |-> d.ports[k].h - d.ports[k].l + 1]]
